@@ -9,8 +9,8 @@ namespace ZygoVerif.Sim
 open ZygoVerif.Core ZygoVerif.VM
 
 theorem xclaims (n : Nat) : XClaimE n ∧ XClaimB n ∧ XClaimC n ∧ XClaimN n ∧ XClaimF n := by
-  obtain ⟨_, _, _, _, _, _, _, _, _, _, _, _, _, _, _, _, hx⟩ := fclaims n
-  exact hx
+  obtain ⟨_, _, _, _, _, _, _, _, _, _, _, _, _, _, _, _, h1, h2, h3, h4, h5, _⟩ := fclaims n
+  exact ⟨h1, h2, h3, h4, h5⟩
 
 /-- **Segment lemma for statement lists with `break`/`continue`** (inside the loops `Γ`). -/
 theorem segment_Fx_begin (ls : List (Option String)) (self : String) (es : List Expr) (hne : es ≠ []) (he : FxList ls self es = true)
